@@ -48,7 +48,17 @@ def config_strategy():
             "key_printable": st.booleans(),
             "options": st.lists(st.sampled_from([G.GUARD_USER, G.GUARD_COMPUTER, G.GUARD_DOMAIN, G.GUARD_LOCAL_IP]), min_size=1, max_size=4, unique=True),
             "optvals": st.lists(st.integers(0, 0xFFFF), min_size=4, max_size=4),
-            "offset": st.one_of(st.just(0), st.integers(0, 64), st.integers(0, 1500)),
+            # any position: small, arbitrary, and such that the config start / the config-guard boundary (the marker)
+            # falls on or next to a multiple of the 8192-byte read size
+            "offset": st.one_of(
+                st.just(0),
+                st.integers(0, 64),
+                st.integers(0, 1500),
+                st.integers(0, 20000),
+                st.tuples(st.integers(1, 3), st.integers(-16, 16)).map(lambda t: max(0, t[0] * 8192 - 6144 + t[1])),
+                st.tuples(st.integers(1, 2), st.integers(-16, 16)).map(lambda t: max(0, t[0] * 8192 + t[1])),
+            ),
+            "offset_is_view": st.booleans(),
             "trail": st.integers(0, 200),
             "container": st.sampled_from(["raw", "raw", "pe", "xorpe"]),
             "fault": st.sampled_from([None, None, "config_byte", "checksum_plus", "checksum_minus", "guard_key"]),
@@ -111,6 +121,10 @@ def execute(case, stats):
         off = len(filler)
         xorencoded = False
     else:
+        img0, info0 = pebuild.build_pe(arch="x64", sections=((".text", b"\xcc" * 64), (".data", b"")))
+        base = info0["sections"][1]["raw_ptr"]
+        if case.get("offset_is_view") and case["offset"] >= base:
+            filler = bytes([0x41]) * (case["offset"] - base)  # place the area at this offset of the searched view
         img, info = pebuild.build_pe(arch="x64", sections=((".text", b"\xcc" * 64), (".data", filler + area + trail)))
         off = info["sections"][1]["raw_ptr"] + len(filler)
         view = img
@@ -160,7 +174,7 @@ def execute(case, stats):
     stats.note(
         case,
         (K != 15 and len(options) >= 2) or fault is not None,
-        classes=["keylen_%s" % ("2-8" if K <= 8 else "9-32" if K <= 32 else "33-128" if K <= 128 else "129-256"), "container_" + container, "fault_" + str(fault), "options%d" % len(options), "first_option_%d" % options[0][0]],
+        classes=["marker_near_8k_boundary" if (off + G.CONFIG_SIZE) % 8192 < 16 or (off + G.CONFIG_SIZE) % 8192 > 8176 else "marker_elsewhere", "keylen_%s" % ("2-8" if K <= 8 else "9-32" if K <= 32 else "33-128" if K <= 128 else "129-256"), "container_" + container, "fault_" + str(fault), "options%d" % len(options), "first_option_%d" % options[0][0]],
     )
 
 
